@@ -139,6 +139,26 @@ fn run(op: &str, a: &[&str]) -> String {
             y.clone_from(&x);
             out(&(y + x.clone()))
         }
+        // clx <c|f> <m1> <m2> <a> <b> <c>: source x = r1.reduce(a); destination y = r2.reduce(b) in ANOTHER ConstDivisor instance
+        // (any modulus); `f`: y.clone_from(&x), `c`: y = x.clone().  Afterwards y must be x: modulus, residue, ring identity
+        // (y == x and y + r1.reduce(c) must not panic)
+        "clx" => {
+            let r1 = ConstDivisor::new(ubig(a[1]));
+            let r2 = ConstDivisor::new(ubig(a[2]));
+            let x = red(&r1, a[3]);
+            let mut y = red(&r2, a[4]);
+            if a[0] == "f" {
+                y.clone_from(&x);
+            } else {
+                y = x.clone();
+            }
+            let z = red(&r1, a[5]);
+            let md = hu(&y.modulus());
+            let rs = hu(&y.residue());
+            let e = (y == x) as u8;
+            let sum = &y + &z;
+            format!("ok {} {} {} {}", md, rs, e, hu(&sum.residue()))
+        }
         // mix <what> <m1> <m2> <a> <b>: operands from two different ConstDivisor instances
         "mix" => {
             let r1 = ConstDivisor::new(ubig(a[1]));
